@@ -23,9 +23,17 @@ pub fn dump_tokens(t: &[FormulaToken]) -> String {
         return "-".into();
     }
     t.iter()
-        .map(|x| format!("{:?}.{:?}:{}", x.get_token_type(), x.get_token_sub_type(), hex(x.get_value())))
+        .map(|x| format!("{:?}.{:?}:{}{}", x.get_token_type(), x.get_token_sub_type(), hex(x.get_value()), array_mark(x)))
         .collect::<Vec<_>>()
         .join(",")
+}
+
+/// the crate-private array-constant mark of a token (`~Array` / `~Row`, nothing for ordinary tokens)
+fn array_mark(x: &FormulaToken) -> String {
+    match verif_array_part(x) {
+        "-" => String::new(),
+        m => format!("~{}", m),
+    }
 }
 
 /// token dump for the "same lexical tokens" comparison: the value carried by an intersection
@@ -34,7 +42,7 @@ pub fn dump_lexical(t: &[FormulaToken]) -> String {
     t.iter()
         .map(|x| {
             let v = if x.get_token_sub_type() == &FormulaTokenSubTypes::Intersection { " " } else { x.get_value() };
-            format!("{:?}.{:?}:{}", x.get_token_type(), x.get_token_sub_type(), hex(v))
+            format!("{:?}.{:?}:{}{}", x.get_token_type(), x.get_token_sub_type(), hex(v), array_mark(x))
         })
         .collect::<Vec<_>>()
         .join(",")
@@ -211,9 +219,7 @@ pub fn gen(tier: Tier, seed: u64) -> Vec<String> {
         let alt = alt_of(&e, &exp);
         // identity paths
         v.push(format!("c09 ident {} {} {} {}", hex(&src), hex(&exp), alt, tags));
-        if !tags.contains("array-const") {
-            v.push(format!("c09 clean {} 1 {}", hex(&src), tags));
-        }
+        v.push(format!("c09 clean {} 1 {}", hex(&src), tags));
         let (c0, r0) = (rng.range(1, 30) as u32, rng.range(1, 50) as u32);
         if rng.chance(1, 2) {
             v.push(format!("c09 setcoord {} {} {} {} {} {} {} {}", hex(&src), c0, r0, c0, r0, hex(&exp), alt, tags));
@@ -247,10 +253,21 @@ pub fn gen(tier: Tier, seed: u64) -> Vec<String> {
             v.push(format!("c09 adj {} {} {} - - boundary", hex(f), dc, dr));
         }
     }
-    // texts the scanner must reject (unbalanced, unterminated, top-level comma, array constants)
-    for m in ["A1,B1", "{1}", "(", ")", "SUM(A1", "A1)", "\"abc", "'abc", "[abc", "#REF", "1;2", "SUM(A1))", "\"a\"\"", "x'y"] {
+    // texts the scanner must reject (unbalanced, unterminated, top-level comma, semicolon outside braces,
+    // parentheses and braces that cross)
+    for m in ["A1,B1", "{1", "1}", "(1}", "{1)", "{(1;2)}", "SUM(1;2)", "(", ")", "SUM(A1", "A1)", "\"abc", "'abc", "[abc", "#REF", "1;2", "SUM(A1))", "\"a\"\"", "x'y"] {
         v.push(format!("c09 clean {} 0 malformed", hex(m)));
     }
+    // array constants the scanner must accept (hand-written: blanks, negative numbers, strings with the
+    // separator characters, errors, nesting in calls, a user function called ARRAY) — with the full oracle
+    for m in ["{1}", "{}", "{1,2;3,4}", "SUM({1,2;3,4}*A1:B2)", "{\"a;b\",\"}\",\"{\"}", "{-1,+2;#N/A,TRUE}", "ARRAY(ARRAYROW(1,2),ARRAYROW(3,4))",
+              "ARRAY({1,2})", "INDEX({1,2;3,4},2,1)+{5}", "{1,2}&{\"x\"}", "IF(A1,{1;2},{3;4})"] {
+        v.push(format!("c09 clean {} 1 array-const", hex(m)));
+        v.push(format!("c09 ident {} {} - array-const", hex(m), hex(m)));
+        v.push(format!("c09 setcoord {} 2 2 2 2 {} - array-const", hex(m), hex(m)));
+    }
+    v.push(format!("c09 ident {} {} - array-const", hex("{ 1 , 2 ; 3 }"), hex("{1,2;3}")));
+    v.push(format!("c09 adj {} 1 1 {} - array-const", hex("SUM({1,2;3,4}*A1:B2)"), hex("SUM({1,2;3,4}*B2:C3)")));
     // malformed / boundary stream: correspondence only
     for m in MALFORMED {
         v.push(format!("c09 ident {} - - malformed", hex(m)));
